@@ -3,6 +3,7 @@ import PV.Base.Crc32
 import PV.Base.B64
 import PV.Model.Pragma
 import PV.Model.Daemon
+import PV.Model.Stats
 import PV.DriverRun
 /-! One-JSON-object-in / one-JSON-object-out driver over the executable models. -/
 namespace PV.Driver
@@ -70,6 +71,10 @@ def handleE (j : Json) : Except String Json := do
   | "strip" =>
     let src ← natsOf (← j.getObjVal? "src")
     pure (Json.mkObj [("ok", jNats ((PV.PyStr.strip (src.map Char.ofNat)).map Char.toNat))])
+  | "stats" =>
+    let src ← natsOf (← j.getObjVal? "code")
+    let cs := src.map Char.ofNat
+    pure (Json.mkObj [("ok", jNats [PV.Stats.numLines cs, PV.Stats.numBytes cs])])
   | "words" =>
     let src ← natsOf (← j.getObjVal? "src")
     let r := PV.PyStr.words (src.map Char.ofNat)
